@@ -60,6 +60,23 @@ def gen_cases(rng, tier):
 def _gen_cases(rng, tier):
     n = 300 if tier == "quick" else 4000
     cases = []
+    for i in range(n // 12):
+        # limits exactly equal to the probability of a chain of re-rolls
+        m = rng.choice([3, 5, 6, 7, 10, 10, 20])
+        k = rng.choice([1, 2, 2, 3]) if m <= 10 else rng.choice([1, 2])
+        h = [[gens.q(j), 1] for j in range(1, m + 1)]
+        if rng.random() < 0.3:
+            h = [[gens.q(1), 1], [gens.q(2), 4]] if rng.random() < 0.5 else [[gens.q(1), 3], [gens.q(2), 2]]
+            t = 5
+            c = h[-1][1]
+            lim = Fraction(c, t) ** k
+        else:
+            lim = Fraction(1, m) ** k
+        kind = rng.choice(["explode", "explode", "h_explode"])
+        if kind == "explode":
+            cases.append({"kind": "explode", "h": h, "sub": None, "lim": ["frac", lim.numerator, lim.denominator], "inf": None})
+        else:
+            cases.append({"kind": "h_explode", "h": h, "md": None, "pl": ["frac", lim.numerator, lim.denominator], "via_pool": rng.random() < 0.3})
     for i in range(n):
         r = i % 10
         h = gens.hist(rng, max_faces=4, style=rng.choice(["unit", "small", "pos"]), frac_p=0.05)
